@@ -39,6 +39,7 @@ type genFail struct {
 	Raw      map[string]string `json:"raw,omitempty"` // raw probe sources (path -> text), instead of Package
 	Flags    []string          `json:"flags,omitempty"`
 	Tags     string            `json:"tags,omitempty"`
+	Expect   string            `json:"expect,omitempty"` // raw probes: accept (default) | reject
 	Findings []rt.Finding      `json:"findings"`
 	Sources  map[string]string `json:"sources,omitempty"`
 	Output   string            `json:"output,omitempty"`
@@ -1024,8 +1025,28 @@ func runRawProbe(f *genFail) []rt.Finding {
 	if crashed(o, code) {
 		return []rt.Finding{{Prop: f.Prop, Msg: "cff crashed: " + tailStr(o, 800)}}
 	}
+	if f.Expect == "reject" {
+		if code == 0 {
+			return []rt.Finding{{Prop: f.Prop, Msg: "cff accepted a probe it must reject"}}
+		}
+		if !strings.Contains(o, "probe.go:") {
+			return []rt.Finding{{Prop: f.Prop, Msg: "cff rejected the probe without a positioned diagnostic: " + tailStr(o, 800)}}
+		}
+		if _, err := os.Stat(filepath.Join(mod, "p", "probe_gen.go")); err == nil {
+			return []rt.Finding{{Prop: f.Prop, Msg: "cff rejected the probe but wrote an output file"}}
+		}
+		return nil
+	}
 	if code != 0 {
 		return []rt.Finding{{Prop: f.Prop, Msg: "cff rejected the probe: " + tailStr(o, 800)}}
+	}
+	if b, err := os.ReadFile(filepath.Join(mod, "p", "probe_gen.go")); err == nil {
+		if gf, err := parser.ParseFile(token.NewFileSet(), "probe_gen.go", b, 0); err != nil {
+			return []rt.Finding{{Prop: f.Prop, Msg: "output does not parse: " + err.Error()}}
+		} else if rem := remainingDirectives(gf); len(rem) > 0 {
+			out = append(out, rt.Finding{Prop: f.Prop, Msg: fmt.Sprintf("output still contains directive calls %v (they panic at run time)", rem)})
+			return out
+		}
 	}
 	if o, c, _ := run(mod, 300*time.Second, "go", "vet", "./..."); c != 0 {
 		out = append(out, rt.Finding{Prop: f.Prop, Msg: "generated code does not compile: " + tailStr(o, 800)})
